@@ -13,6 +13,10 @@ def items():
     out = []
     for d in sorted(glob.glob('/verif/seeded/C*')):
         out.append(('S-' + os.path.basename(d), d + '/patch.diff', 'seeded', os.path.basename(d)[:3]))
+    for d in sorted(glob.glob('/tmp/w3out/C*/[EF]')):
+        k = 'W-%s%s' % (os.path.basename(os.path.dirname(d)), os.path.basename(d))
+        if os.path.exists(d + '/patch.diff') and not os.path.exists('/verif/seeded/' + k[2:]):
+            out.append((k, d + '/patch.diff', 'seeded', os.path.basename(os.path.dirname(d))))
     for d in sorted(glob.glob('/verif/benign/C*/[0-9]')) + sorted(glob.glob('/tmp/benign/C*/[0-9]')):
         k = 'B-%s-%s' % (os.path.basename(os.path.dirname(d)), os.path.basename(d))
         if not any(x[0] == k for x in out):
